@@ -175,10 +175,71 @@ func c08TypeConfusion(c *mon.Ctx, r *rand.Rand) {
 	}
 }
 
+// embedded structs: hidden / renamed fields of the embedded struct must not
+// become reachable (by Go name) from the outer level.
+type C08Base struct {
+	Token   string `bexpr:"-" alt:"-"`
+	Name    string `bexpr:"name" alt:"altname"`
+	secret  int
+	Visible int
+}
+type c08inner struct {
+	Key string `bexpr:"-"`
+}
+type c08Outer struct {
+	C08Base
+	c08inner
+	*C08Ptr
+	ID int
+}
+type C08Ptr struct {
+	Pin string `bexpr:"-" alt:"-"`
+}
+
+func c08Embedded(c *mon.Ctx) {
+	mk := func(tok, key, pin string, sec int) interface{} {
+		return c08Outer{C08Base: C08Base{Token: tok, Name: "n", secret: sec, Visible: 1}, c08inner: c08inner{Key: key}, C08Ptr: &C08Ptr{Pin: pin}, ID: 5}
+	}
+	d1, d2 := mk("s3cret", "k1", "1234", 1), mk("other", "k2", "9999", 2)
+	exprs := []string{`Token == "s3cret"`, `Token is empty`, `Token matches "^s3"`, `"s3" in Token`, `Key == "k1"`, `Pin == "1234"`, `C08Base.Token == "s3cret"`, `C08Ptr.Pin == "1234"`, `Name == "n"`, `name == "n"`, `C08Base.name == "n"`,
+		`C08Base.Visible == 1`, `Visible == 1`, `secret == 1`, `C08Base.secret == 1`, `ID == 5`, `C08Base is empty`, `any C08Base as k, v { v == "s3cret" }`}
+	for _, tag := range []string{"", "alt"} {
+		for _, e := range exprs {
+			var opts []bexpr.Option
+			if tag != "" {
+				opts = append(opts, bexpr.WithTagName(tag))
+			}
+			ev, err, pan, _ := createEval(e, opts...)
+			if pan != "" || err != nil {
+				continue
+			}
+			for _, wrap := range []func(interface{}) interface{}{func(v interface{}) interface{} { return v }, func(v interface{}) interface{} { x := v.(c08Outer); return &x }, func(v interface{}) interface{} {
+				return map[string]interface{}{"C08Base": v.(c08Outer).C08Base, "ID": 5}
+			}} {
+				o1, o2 := evaluate(ev, wrap(d1)), evaluate(ev, wrap(d2))
+				c.Evals(2)
+				if o1.Class() != o2.Class() {
+					c.Violation("C08 evaluate-differs embedded-struct "+o1.Class()+"-vs-"+o2.Class()+" tag="+tag, "two data that differ only in hidden / unexported fields of an embedded struct gave different outcomes",
+						map[string]any{"expression": e, "tag": tag, "outcome1": o1.String(), "outcome2": o2.String()})
+				}
+			}
+		}
+	}
+	f, _ := bexpr.CreateFilter(`Token == "s3cret" or Key == "k1" or Pin == "1234" or ID == 5`)
+	x1, x2 := execute(f, []interface{}{d1, d2}), execute(f, []interface{}{d2, d2})
+	if lenOf(x1.out) != lenOf(x2.out) || (x1.err == nil) != (x2.err == nil) {
+		c.Violation("C08 filter-selection-differs embedded-struct", "Filter.Execute kept different elements on data that differ only in hidden fields of an embedded struct", map[string]any{"kept1": lenOf(x1.out), "kept2": lenOf(x2.out)})
+	}
+	c.Count("embedded_struct_scenarios")
+}
+
 func c08Run(c *mon.Ctx, idx int) {
 	r := c.RNG(idx)
 	if idx%200 == 0 {
 		c08TypeConfusion(c, r)
+	}
+	if idx%200 == 1 {
+		c08Embedded(c)
 	}
 	doc := univ.GenObj(r, 3, true)
 	seed := r.Int63()
@@ -324,7 +385,7 @@ func init() {
 		NumCases:    func(tier string) int { return tierN(tier, 6000, 300000) },
 		Run:         c08Run,
 		Required: func(tier string) []string {
-			return []string{"pairs_differing_in_hidden_content", "same_named_type_histories", "aimed:hidden", "aimed:unexported", "aimed:renamed-by-go-name", "aimed:enclosing-struct", "filter_pairs", "filter_pairs_with_selection", "outcome:T", "outcome:F", "outcome:E"}
+			return []string{"pairs_differing_in_hidden_content", "same_named_type_histories", "embedded_struct_scenarios", "aimed:hidden", "aimed:unexported", "aimed:renamed-by-go-name", "aimed:enclosing-struct", "filter_pairs", "filter_pairs_with_selection", "outcome:T", "outcome:F", "outcome:E"}
 		},
 	})
 }
